@@ -21,6 +21,9 @@ type Sched struct {
 	StallProb float64 `json:"stall_prob"`
 	MaxSteps  int64   `json:"max_steps"`
 	HorizonS  int64   `json:"horizon_s"`
+	// Focus lists site-name fragments (file names of the mechanism under check) that the
+	// "starve" strategy prefers when it chooses where to delay goroutines.
+	Focus []string `json:"focus,omitempty"`
 }
 
 // Scenario is a complete, replayable description of one run (minus decisions).
@@ -96,7 +99,7 @@ type World interface {
 	Run(t *testing.T, sc *Scenario, cfg Config) Outcome
 }
 
-var strategies = []string{"random", "random", "sticky", "sticky", "pct", "rr"}
+var strategies = []string{"random", "random", "sticky", "sticky", "pct", "rr", "starve", "starve"}
 
 // DefaultSched draws schedule parameters from rng.
 func DefaultSched(rng *rand.Rand) Sched {
@@ -112,6 +115,9 @@ func DefaultSched(rng *rand.Rand) Sched {
 		s.StallProb = 0.01
 	case 1:
 		s.StallProb = 0.03
+	}
+	if s.Strategy == "starve" && s.StallProb == 0 {
+		s.StallProb = 0.002 // stalls are what lets a sleeper overtake a delayed goroutine
 	}
 	return s
 }
@@ -172,7 +178,7 @@ func WorkerMain(t *testing.T, w World) {
 	runOne := func(sc *Scenario, seedLabel int64, decisions []int32, useReplay bool) bool {
 		cfg := Config{
 			Seed: sc.Sched.Seed, SelSeed: sc.Sched.SelSeed, Strategy: sc.Sched.Strategy,
-			StallProb: sc.Sched.StallProb, MaxSteps: sc.Sched.MaxSteps,
+			StallProb: sc.Sched.StallProb, MaxSteps: sc.Sched.MaxSteps, Focus: sc.Sched.Focus,
 			Horizon: time.Duration(sc.Sched.HorizonS) * time.Second,
 			Replay:  decisions, UseReplay: useReplay, LogEvents: spec.WithEvents,
 		}
